@@ -1396,7 +1396,9 @@ fn rich_signature(info: RichHeaderInfo, region: &Region, data: &mut Data) -> Val
     }
 
     Value::object([
-        ("offset", (region.start + info.offset).into()),
+        // The region start is given by the caller of a fragmented scan and can be anywhere
+        // in the address space: the sum is undefined when it does not fit.
+        ("offset", region.start.checked_add(info.offset).into()),
         ("length", length.into()),
         ("key", info.xor_key.into()),
         ("raw_data", raw.into()),
